@@ -338,6 +338,25 @@ impl Evaluator {
         }
         r
     }
+    /// raw (unsimplified) value of an expression, through a `let` + the hook
+    pub fn raw(&mut self, expr: &str) -> Option<numbat::value::Value> {
+        if self.count >= self.period {
+            self.work = self.base.clone();
+            self.count = 0;
+        }
+        self.count += 1;
+        self.evals += 1;
+        let r = run(&mut self.work, &format!("let vfq_raw_value = {expr}"));
+        if r.panic().is_some() {
+            self.work = self.base.clone();
+            self.count = 0;
+            return None;
+        }
+        if !r.is_ok() {
+            return None;
+        }
+        self.work.verif_raw_global("vfq_raw_value")
+    }
     pub fn ctx(&mut self) -> &mut Context {
         &mut self.work
     }
